@@ -452,7 +452,7 @@ def run_bind(ctx, answers, how):
     oracle on a sample of the accepted calls and on every disagreement"""
     from gen import argbind as A
     items = ctx.bind_items
-    outs = common.parallel_map('props.c02', 'analyse_bind', items)
+    outs = ctx.bind_outs
     k = 0
     suspects = []
     n_acc = n_thm = 0
@@ -492,14 +492,20 @@ def run_bind(ctx, answers, how):
                     ctx.tie_broken('correspondence:bindpy', short(
                         {'signature': key[0], 'call': key[1], 'cpython': py, 'model': mpy}, 1500))
             # the theorem's claim, on the real things: whenever CPython accepts the call and no
-            # keyword is spelled like *args/**kwargs, jedi binds what CPython binds and reports nothing
+            # keyword is spelled like *args/**kwargs, jedi binds what CPython binds
+            # (and, not under a theorem: reports no issue)
             if py is not None:
                 n_acc += 1
                 if not A.kw_spelled_like_star(sig, call):
                     n_thm += 1
-                    if real['env'] != py or real['issues']:
+                    if real['env'] != py:
                         ctx.tie_broken('theorem-vs-implementation:bind_agrees_partial', short(
                             {'signature': key[0], 'call': key[1], 'jedi': real, 'cpython': py}, 1500))
+                        if (sig, call) not in suspects:
+                            suspects.append((sig, call))
+                    elif real['issues']:
+                        ctx.tie_broken('expectation:accepted-call-reports-no-issue', short(
+                            {'signature': key[0], 'call': key[1], 'jedi': real}, 1500))
                         if (sig, call) not in suspects:
                             suspects.append((sig, call))
         for ci, recs in out['oracle'].items():
@@ -520,14 +526,19 @@ def programs(ctx):
 
 
 def run(ctx):
+    from concurrent.futures import ThreadPoolExecutor
+    from gen import argbind as A
     progs = programs(ctx)
-    outs = common.parallel_map('props.c02', 'analyse', progs)
     encs = [encode(p) for p in progs]
     reqs = [{'op': 'run', 'prog': e[0], 'fuel': FUEL} for e in encs]
     ctx.bind_items = bind_items(ctx)
-    from gen import argbind as A
     reqs += [A.bind_encode(it['sig'], c) for it in ctx.bind_items for c in it['calls']]
-    answers = common.run_driver_parallel('C02', reqs) if ctx.model_ok else [None] * len(progs)
+    # the Lean driver (one call) runs while the real code is exercised in worker processes
+    with ThreadPoolExecutor(1) as pool:
+        fut = pool.submit(common.run_driver_parallel, 'C02', reqs) if ctx.model_ok else None
+        outs = common.parallel_map('props.c02', 'analyse', progs)
+        ctx.bind_outs = common.parallel_map('props.c02', 'analyse_bind', ctx.bind_items)
+        answers = fut.result() if fut is not None else [None] * len(progs)
     how = 'jedi.Script(source).infer(line, 0) vs executing the program (harness/gen/pycore.py:run)'
     for out, ans, (enc, nm), prog in zip(outs, answers, encs, progs):
         src = out['src']
